@@ -166,3 +166,17 @@ func VerifC10HashPositions(positions []uint64) []byte {
 	}
 	return h.Sum()
 }
+
+// VerifC07FieldStandardFragment returns the standard-view fragment of a field for a shard,
+// creating view and fragment exactly as Field.SetBit / Field.Import do.
+func VerifC07FieldStandardFragment(fld *Field, shard uint64) (*VerifC07Fragment, error) {
+	v, err := fld.createViewIfNotExists(viewStandard)
+	if err != nil {
+		return nil, err
+	}
+	f, err := v.CreateFragmentIfNotExists(shard)
+	if err != nil {
+		return nil, err
+	}
+	return &VerifC07Fragment{f: f}, nil
+}
